@@ -1,18 +1,69 @@
 import TexcraftModel.Lemmas.C14
+import TexcraftModel.Lemmas.C14Words
 
 /-!
 # C14 — property theorems
 
+* `discovery_complete`         the words the (fixed) loop tries = one declarative clause per glue node
+* `every_glue_gets_its_word`   corollary: no glue node is ever swallowed (C14-a)
 * `index_iter_spec`            `IndexIter` + the hyphen-minimum clamping = "at least max(1,lhm) letters
                                before the break and at least max(1,rhm) after it"
 * `disc_invariants_conserve`   P1 ∧ P2 (decidable, evaluated on every real output) ⇒ for every choice of
                                breaks the reader sees the letters of the input
 * `p1_unbroken`                P1 ⇒ with no break taken, node for node the input
+* `validated_run_conserves`    what a run that passes the driver's check establishes
+* `C14_full_statement`         (a `def`, NOT proved) the property for the real reconstitution
 
 The ligature reconstitution itself (TeX §903–§918) is validated per run (P1, P2, positions),
 not proved: see `notes/C14.md`.
 -/
 namespace C14
+
+/-! ## Word discovery -/
+
+/-- **Word discovery is complete and exact.** For every horizontal list, the words the fixed
+code tries (`findWords`: the `while` loop of `hyphenate_impl` with its index juggling — start at
+a glue, step over non-letters / font kerns / whatsits, accumulate a same-font run of at most 63
+letters, test the terminating node, resume after the word or after the failed search) are, in
+order, exactly the words `specAt` describes for each glue node on its own: the first letter
+after the glue and any skippable nodes, the longest run of word nodes of that font with at most
+63 letters, rejected only if a box, rule, discretionary or math node follows the run's trailing
+characters. The fuel given by `findWords` suffices (`scan_eq_specFrom` holds for any larger fuel). -/
+theorem discovery_complete (l : List Item) : findWords l = specWords l := by
+  unfold findWords specWords
+  rw [scan_eq_specFrom (l.length + 1) 0 l (by omega)]
+  simp [specFrom]
+
+/-- Corollary (this is what C14-a violates): every glue node of the list — also one that ends
+the unsuccessful search started at an earlier glue, as after the letterless token `3.0` — gets
+its own search, and the word found for it is tried. -/
+theorem every_glue_gets_its_word (l : List Item) (g : Nat) (w : Word) (hg : g < l.length)
+    (hw : specAt g (l.drop g) = some w) : w ∈ findWords l := by
+  rw [discovery_complete]
+  simp only [specWords, List.mem_filterMap, List.mem_range]
+  exact ⟨g, hg, hw⟩
+
+/-- `x 3.0 Contents` (cmr10: `x glue 3 . 0 glue C o n kern t e n kern t s`). -/
+private def exContents : List Item :=
+  [.char 120 0, .other .glue [1], .char 51 0, .char 46 0, .char 48 0, .other .glue [1],
+   .char 67 0, .char 111 0, .char 110 0, .kern 0 (-18205), .char 116 0, .char 101 0, .char 110 0,
+   .kern 0 (-18205), .char 116 0, .char 115 0]
+
+/-- The fixed code tries `Contents` … -/
+example : findWords exContents = [⟨6, 10, 0, [67, 111, 110, 116, 101, 110, 116, 115]⟩] := by decide
+example : specAt 5 (exContents.drop 5) = some ⟨6, 10, 0, [67, 111, 110, 116, 101, 110, 116, 115]⟩ := by decide
+/-- … the code before `fixes/C14-a.patch` (its `Abort` arm consumes the aborting glue) does not:
+`discovery_complete` is FALSE for the faithful model of the unpatched code. -/
+example : findWordsPrefix exContents = [] := by decide
+example : findWordsPrefix exContents ≠ specWords exContents := by decide
+
+/-- Other branches, concretely: a word is not tried before an hbox, a 64-letter run is cut at 63,
+a font change ends the word. -/
+example : findWords [.other .glue [], .char 97 0, .char 98 0, .other .hbox []] = [] := by decide
+example : findWords [.other .glue [], .char 97 0, .char 98 1, .other .penalty [0]]
+    = [⟨1, 1, 0, [97]⟩] := by decide
+example : (findWords (.other .glue [] :: List.replicate 64 (.char 97 0))).map (fun w => (w.nodes, w.letters.length))
+    = [(63, 63)] := by decide
 
 /-! ## Hyphen minimums -/
 
@@ -48,6 +99,29 @@ theorem disc_invariants_conserve (marks taken : List Bool) (out inp : List Item)
   simp only [P1, Bool.and_eq_true, decide_eq_true_eq] at h1
   have := render_invariant out marks taken 0 h2 h1.1 hl (by omega) (by simp)
   simpa [lettersL_nil, h1.2] using this
+
+/-- What one validated run establishes: if the driver's alignment of the real output against the
+input succeeds and P2 holds for it, then whatever breaks the line breaker takes, the text is the
+input's. (`align` succeeding already implies P1: `align_sound`.) -/
+theorem validated_run_conserves (out inp : List Item) (marks taken : List Bool)
+    (ha : align inp out = some marks) (h2 : P2 marks out = true) (hl : taken.length = out.length) :
+    render marks taken out 0 = lettersL inp :=
+  disc_invariants_conserve marks taken out inp (align_sound out inp marks ha) h2 hl
+
+/-- The property at full strength, for a function `impl lhm rhm liang inp` standing for
+`Hyphenator::hyphenate` (`liang` = the raw Liang positions of a word): some marking of the
+output satisfies P1 and P2 and the inserted discretionaries offer exactly the allowed positions
+of the words of `specWords`. **Not proved** — there is no Lean model of the ligature
+reconstitution (TeX §903–§918) to instantiate `impl` with. The driver evaluates the body of this
+statement on every real output instead (`chk`), with the exceptions listed as known findings
+C14-f, C14-g (P1 near word boundaries) and C14-h (positions skipped while synchronising). -/
+def C14_full_statement (impl : Int → Int → (List Nat → List Nat) → List Item → List Item) : Prop :=
+  ∀ (lhm rhm : Int) (liang : List Nat → List Nat) (inp : List Item),
+    ∃ marks : List Bool,
+      P1 marks (impl lhm rhm liang inp) inp = true ∧ P2 marks (impl lhm rhm liang inp) = true ∧
+      ((discPositions marks (impl lhm rhm liang inp) 0).map (·.1)).Perm
+        (expectedPositions inp (specWords inp)
+          ((specWords inp).map (fun w => specPositions lhm rhm w.letters.length (liang w.letters))))
 
 /-- With no break taken nothing at all changed: P1 is literally "delete the inserted
 discretionaries and get the input, node for node". -/
